@@ -23,7 +23,7 @@ func init() {
 			"that raises the estimate is decided by an upper bound on the queue estimate and every non-drop path that lowers it by a lower bound; (O3) rtt influences control flow " +
 			"only through recognised monotone idioms: the baseline-lowering test (excluded by the property), a guard whose low-rtt side yields a value proved >= the high-rtt " +
 			"side, the self-guarded smoothing idiom whose pieces meet at the old estimate, threshold comparisons of the control signal, and effect-free (logging) diamonds; any " +
-			"other rtt-dependent branch is reported.",
+			"other rtt-dependent branch is reported. Including Gradient2: (O6) no sample is set aside by a one-sided test (C07/O5) and (O7) a reset or replacement of a baseline measurement on the sample path is not control-dependent on a test that reads the sample's RTT. (O4) and (O5) establish what the argument takes as given: the clamp of every stored estimate (C04/O1) and a smoothing factor within [0,1].",
 	})
 }
 
